@@ -27,8 +27,14 @@ Record claims := mkClaims {
 
 Inductive subcheck := SubIsIssuer | SubAny.
 
+(* which public constructor built the verifier: op.NewJWTProfileVerifier (keys from
+   storage) or op.NewJWTProfileVerifierKeySet (with a key set that looks the key up in the
+   same storage under the assertion's issuer).  Both take (issuer, maxAgeIAT, offset,
+   options) with the same meaning: no function below consults [v_ctor]. *)
+Inductive ctor := CtorStorage | CtorKeySet.
+
 Record vcfg := mkV {
-  v_issuer : string; v_max_age : Z; v_offset : Z; v_sub : subcheck
+  v_issuer : string; v_max_age : Z; v_offset : Z; v_sub : subcheck; v_ctor : ctor
 }.
 
 Definition second : Z := 1000000000%Z.
